@@ -15,6 +15,12 @@ done
 for f in TraversalGenCyc TraversalGenQ; do
   [ -f coq/theories/$f.v ] || echo "(* the translator failed closed *) Definition translator_failed_closed : True := 0." > coq/theories/$f.v
 done
+# time_series_causal_graph.py algorithms -> TSGen{Summary,Stationary,Minimal,Extend}.v
+/venv/bin/python tools/translate_ts_summary.py "${VERIF_REPO:-/repo}" coq/theories || true
+/venv/bin/python tools/translate_ts_extend.py "${VERIF_REPO:-/repo}" coq/theories || true
+for f in TSGenSummary TSGenStationary TSGenMinimal TSGenExtend; do
+  [ -f coq/theories/$f.v ] || echo "(* the translator failed closed *) Definition translator_failed_closed : True := 0." > coq/theories/$f.v
+done
 cd coq
 coq_makefile -f _CoqProject -o Makefile >/dev/null
 timeout 3000 make -k -j"$(nproc)" 2>&1 | tail -5
